@@ -272,30 +272,35 @@ def apiOps {X} (c : Config) (f : Flags) (o : Op X) : Except String (List Prim ×
 /-! ## denotation over uninterpreted primitives
 
     The components of the state are the *footprints*: `pj` = `ri_whfast.p_jh` (internal
-    coordinates, incl. its own mass/acceleration members), `xv` = positions and velocities
-    of `r->particles`, `acc` = accelerations of `r->particles`, `saved` = `sync_pj`,
-    `tmp` = `ri_whfast.p_temp`.  Masses, radii, G, dt, N_active are constants of the
-    run (no primitive writes them) and are closed over by the functions of `Sem`.  -/
+    coordinates, incl. its own mass/acceleration members), `pos` / `vel` / `acc` = positions,
+    velocities, accelerations of `r->particles`, `saved` = `sync_pj`, `tmp` =
+    `ri_whfast.p_temp`.  Masses, radii, G, dt, N_active are constants of the run (no
+    primitive writes them) and are closed over by the functions of `Sem`.  The *types* of
+    the fields of `Sem` state which components a primitive reads and which it overwrites
+    completely; this footprint table is tested against the real primitives by rv/c09.py
+    (perturb what is claimed unread, compare what is claimed written).  -/
 
-structure St (PJ XV A : Type) where
+structure St (PJ X V A : Type) where
   pj : PJ
-  xv : XV
+  pos : X
+  vel : V
   acc : A
   saved : PJ
   tmp : PJ
 
-structure Sem (T PJ XV A : Type) where
+structure Sem (T PJ X V A : Type) where
   ev : Coef → T
-  fromI : XV → PJ → PJ          -- overwrites pos/vel/mass of p_jh, keeps its acc members
-  toI : PJ → XV                 -- overwrites all positions and velocities
-  posJ : PJ → XV → XV           -- overwrites positions only
-  posB : PJ → XV → XV
+  fromI : X → V → PJ → PJ       -- overwrites pos/vel/mass of p_jh, keeps its acc members
+  toIpos : PJ → X               -- *_to_inertial_posvel overwrites all positions …
+  toIvel : PJ → V               -- … and all velocities
+  posJ : PJ → X                 -- jacobi_to_inertial_pos overwrites all positions
+  posB : PJ → X
   kepler : T → PJ → PJ
   com : T → PJ → PJ
   jump : T → PJ → PJ
   inter : T → A → PJ → PJ
-  upd : XV → A                  -- overwrites all accelerations
-  jerk : XV → A → PJ → PJ
+  upd : X → A                   -- gravity: reads positions, overwrites all accelerations
+  jerk : X → A → PJ → PJ
   mkFold : PJ → A → A
   jacAcc : A → PJ → PJ
   lazyShift : PJ → PJ
@@ -303,20 +308,20 @@ structure Sem (T PJ XV A : Type) where
   sabaFold : PJ → A
   sabaLazyKick : T → PJ → PJ → PJ
 
-variable {T PJ XV A : Type}
+variable {T PJ X V A : Type}
 
-def denote (S : Sem T PJ XV A) : Prim → St PJ XV A → St PJ XV A
+def denote (S : Sem T PJ X V A) : Prim → St PJ X V A → St PJ X V A
   | .init, s | .warn, s | .advT _, s => s
-  | .fromInertial, s => { s with pj := S.fromI s.xv s.pj }
-  | .toInertial, s => { s with xv := S.toI s.pj }
-  | .posJacobi, s => { s with xv := S.posJ s.pj s.xv }
-  | .posBary, s => { s with xv := S.posB s.pj s.xv }
+  | .fromInertial, s => { s with pj := S.fromI s.pos s.vel s.pj }
+  | .toInertial, s => { s with pos := S.toIpos s.pj, vel := S.toIvel s.pj }
+  | .posJacobi, s => { s with pos := S.posJ s.pj }
+  | .posBary, s => { s with pos := S.posB s.pj }
   | .kepler τ, s => { s with pj := S.kepler (S.ev τ) s.pj }
   | .com τ, s => { s with pj := S.com (S.ev τ) s.pj }
   | .jump τ, s => { s with pj := S.jump (S.ev τ) s.pj }
   | .interaction τ, s => { s with pj := S.inter (S.ev τ) s.acc s.pj }
-  | .updateAcc, s => { s with acc := S.upd s.xv }
-  | .jerk, s => { s with pj := S.jerk s.xv s.acc s.pj }
+  | .updateAcc, s => { s with acc := S.upd s.pos }
+  | .jerk, s => { s with pj := S.jerk s.pos s.acc s.pj }
   | .mkFold, s => { s with acc := S.mkFold s.pj s.acc }
   | .jacAcc, s => { s with pj := S.jacAcc s.acc s.pj }
   | .lazyShift, s => { s with tmp := s.pj, pj := S.lazyShift s.pj }
@@ -326,18 +331,19 @@ def denote (S : Sem T PJ XV A) : Prim → St PJ XV A → St PJ XV A
   | .sabaFold, s => { s with acc := S.sabaFold s.pj }
   | .sabaLazyKick τ, s => { s with pj := S.sabaLazyKick (S.ev τ) s.tmp s.pj }
 
-def exec (S : Sem T PJ XV A) : List Prim → St PJ XV A → St PJ XV A
+def exec (S : Sem T PJ X V A) : List Prim → St PJ X V A → St PJ X V A
   | [], s => s
   | p :: ps, s => exec S ps (denote S p s)
 
 /-- one API operation on (flags, state) -/
-def apply (S : Sem T PJ XV A) (c : Config) (o : Op XV) (x : Flags × St PJ XV A) :
-    Flags × St PJ XV A :=
+def apply (S : Sem T PJ X V A) (c : Config) (o : Op (X × V)) (x : Flags × St PJ X V A) :
+    Flags × St PJ X V A :=
   let r := opOps c x.1 o
   let s := exec S r.1 x.2
-  (r.2, match o with | .poke v => { s with xv := v } | _ => s)
+  (r.2, match o with | .poke v => { s with pos := v.1, vel := v.2 } | _ => s)
 
-def run (S : Sem T PJ XV A) (c : Config) : List (Op XV) → Flags × St PJ XV A → Flags × St PJ XV A
+def run (S : Sem T PJ X V A) (c : Config) :
+    List (Op (X × V)) → Flags × St PJ X V A → Flags × St PJ X V A
   | [], x => x
   | o :: os, x => run S c os (apply S c o x)
 
@@ -346,27 +352,28 @@ def run (S : Sem T PJ XV A) (c : Config) : List (Op XV) → Flags × St PJ XV A 
 /-- a set of state components -/
 structure Comps where
   pj : Bool
-  xv : Bool
+  pos : Bool
+  vel : Bool
   acc : Bool
   saved : Bool
   tmp : Bool
   deriving DecidableEq, Repr
 
-def agree (L : Comps) (s s' : St PJ XV A) : Prop :=
-  (L.pj = true → s.pj = s'.pj) ∧ (L.xv = true → s.xv = s'.xv) ∧ (L.acc = true → s.acc = s'.acc) ∧
-  (L.saved = true → s.saved = s'.saved) ∧ (L.tmp = true → s.tmp = s'.tmp)
+def agree (L : Comps) (s s' : St PJ X V A) : Prop :=
+  (L.pj = true → s.pj = s'.pj) ∧ (L.pos = true → s.pos = s'.pos) ∧ (L.vel = true → s.vel = s'.vel) ∧
+  (L.acc = true → s.acc = s'.acc) ∧ (L.saved = true → s.saved = s'.saved) ∧ (L.tmp = true → s.tmp = s'.tmp)
 
 /-- if two states agree on `L` before primitive `p`, they agree on `transfer p L` after -/
 def transfer : Prim → Comps → Comps
   | .init, L | .warn, L | .advT _, L => L
-  | .fromInertial, L => { L with pj := L.xv && L.pj }
-  | .toInertial, L => { L with xv := L.pj }
-  | .posJacobi, L | .posBary, L => { L with xv := L.pj && L.xv }
+  | .fromInertial, L => { L with pj := L.pos && L.vel && L.pj }
+  | .toInertial, L => { L with pos := L.pj, vel := L.pj }
+  | .posJacobi, L | .posBary, L => { L with pos := L.pj }
   | .kepler _, L | .com _, L | .jump _, L => L
   | .lazyShift, L => { L with tmp := L.pj }
   | .interaction _, L | .jacAcc, L => { L with pj := L.acc && L.pj }
-  | .updateAcc, L => { L with acc := L.xv }
-  | .jerk, L => { L with pj := L.xv && L.acc && L.pj }
+  | .updateAcc, L => { L with acc := L.pos }
+  | .jerk, L => { L with pj := L.pos && L.acc && L.pj }
   | .mkFold, L => { L with acc := L.pj && L.acc }
   | .lazyReset, L => { L with pj := L.tmp && L.pj }
   | .savePJ, L => { L with saved := L.pj }
